@@ -19,7 +19,8 @@
 (***************************************************************************)
 EXTENDS Univ
 
-CONSTANTS HasBefore, HasAfter, NotFoundToo, MaxErr, Truncate, Replay
+CONSTANTS HasBefore, HasAfter, NotFoundToo, MaxErr, Truncate, Replay,
+          Logs   \* TRUE: a running step or hook may emit one Scenario::Log event (tracing integration)
 
 VARIABLES gpc,    \* "pre" | "feat" | "att" | "post" | "replay" | "end"
           fi,     \* index of the current feature in U
@@ -52,7 +53,7 @@ FeatPlan(i) ==
   [j \in DOMAIN U[i].scenarios |-> [k |-> "Sc", r |-> "", s |-> U[i].scenarios[j].name]]
   \o RulePlan(U[i].rules, U[i].name)
 
-NoAttempt == [s |-> "", cur |-> 0, pc |-> "", i |-> 1, failedR |-> FALSE]
+NoAttempt == [s |-> "", cur |-> 0, pc |-> "", i |-> 1, failedR |-> FALSE, lg |-> FALSE]
 
 GInit ==
   /\ gpc = "pre" /\ fi = 0 /\ plan = <<>> /\ att = NoAttempt /\ gerr = 0 /\ fails = <<>>
@@ -100,7 +101,7 @@ GItem ==
        [] it.k = "RuleF" -> /\ plan' = Tail(plan) /\ Emit(EvRuleF(f, it.r)) /\ UNCHANGED <<gpc, fi, att, gerr>>
        [] it.k = "Sc" ->
             /\ plan' = Tail(plan) /\ gpc' = "att"
-            /\ att' = [s |-> it.s, cur |-> 0, pc |-> "S", i |-> 1, failedR |-> FALSE]
+            /\ att' = [s |-> it.s, cur |-> 0, pc |-> "S", i |-> 1, failedR |-> FALSE, lg |-> FALSE]
             /\ ev' = EvSc(f, it.r, it.s, RetrOf(it.s, 0), "Started", "", 0, "")
             /\ UNCHANGED <<fi, gerr, fails>>
   \* fail-fast truncation: drop the remaining scenarios of this feature
@@ -113,13 +114,17 @@ GAtt ==
   /\ LET n == NStep(att.s)
          stepsPc == IF n = 0 THEN "post" ELSE "steps"
          pcNow == IF att.pc = "S" /\ ~HasBefore THEN stepsPc ELSE att.pc
-         stay(pc2, i2, fr) == /\ att' = [att EXCEPT !.pc = pc2, !.i = i2, !.failedR = fr]
+         stay(pc2, i2, fr) == /\ att' = [att EXCEPT !.pc = pc2, !.i = i2, !.failedR = fr, !.lg = FALSE]
                               /\ UNCHANGED <<gpc, fi, plan, gerr>>
+         \* one log event while the hook / step runs (at most one per callback)
+         logNow == /\ Logs /\ ~att.lg /\ Emit(SEv("Log", "", att.i, ""))
+                   /\ att' = [att EXCEPT !.lg = TRUE] /\ UNCHANGED <<gpc, fi, plan, gerr>>
      IN
      CASE att.pc = "S" /\ HasBefore -> Emit(SEv("HookS", "b", 0, "")) /\ stay("Hb", 1, FALSE)
        [] pcNow = "Hb" ->
             \/ Emit(SEv("HookP", "b", 0, "")) /\ stay(stepsPc, 1, FALSE)
             \/ Emit(SEv("HookF", "b", 0, "")) /\ stay("post", 1, TRUE)
+            \/ logNow
        [] pcNow = "steps" -> Emit(SEv("StepS", "", att.i, "")) /\ stay("Sr", att.i, att.failedR)
        [] pcNow = "Sr" ->
             \/ Emit(SEv("StepP", "", att.i, ""))
@@ -127,17 +132,19 @@ GAtt ==
             \/ Emit(SEv("StepSk", "", att.i, "")) /\ stay("post", att.i, att.failedR)
             \/ Emit(SEv("StepF", "", att.i, "panic")) /\ stay("post", att.i, TRUE)
             \/ NotFoundToo /\ Emit(SEv("StepF", "", att.i, "notfound")) /\ stay("post", att.i, att.failedR)
+            \/ logNow
        [] pcNow = "post" /\ HasAfter -> Emit(SEv("HookS", "a", 0, "")) /\ stay("Ha", att.i, att.failedR)
        [] pcNow = "Ha" ->
             \/ Emit(SEv("HookP", "a", 0, "")) /\ stay("fin", att.i, att.failedR)
             \/ Emit(SEv("HookF", "a", 0, "")) /\ stay("fin", att.i, TRUE)
+            \/ logNow
        [] (pcNow = "post" /\ ~HasAfter) \/ pcNow = "fin" ->
             LET rt == RetrOf(att.s, att.cur)
                 retry == att.failedR /\ rt.retr /\ rt.left > 0
             IN /\ Emit(SEv("Finished", "", 0, ""))
                /\ UNCHANGED <<fi, plan, gerr>>
                /\ \/ /\ retry /\ gpc' = "att"       \* next attempt follows at once (sequential)
-                     /\ att' = [s |-> att.s, cur |-> att.cur + 1, pc |-> "S0", i |-> 1, failedR |-> FALSE]
+                     /\ att' = [s |-> att.s, cur |-> att.cur + 1, pc |-> "S0", i |-> 1, failedR |-> FALSE, lg |-> FALSE]
                   \/ /\ (~retry \/ Truncate) /\ gpc' = "feat" /\ att' = NoAttempt
        [] pcNow = "S0" ->       \* Started of a retry attempt
             /\ ev' = SEv("Started", "", 0, "") /\ UNCHANGED <<fi, plan, gerr, fails, gpc>>
